@@ -5,6 +5,7 @@ import (
 	"encoding/asn1"
 	"errors"
 	"fmt"
+	"io"
 	"math/big"
 
 	"github.com/emmansun/gmsm/sm9"
@@ -234,7 +235,7 @@ func sm9Ops() []*op {
 
 func prepSM9GenSign(x *env, r *mon.Rand, variant string) *call {
 	c := &call{inputs: "-"}
-	c.run = func(rnd *mon.Script) (o outcome) {
+	c.run = func(rnd io.Reader) (o outcome) {
 		m, err := sm9.GenerateSignMasterKey(rnd)
 		o.err = err
 		if m == nil {
@@ -266,7 +267,7 @@ func prepSM9GenSign(x *env, r *mon.Rand, variant string) *call {
 
 func prepSM9GenEnc(x *env, r *mon.Rand, variant string) *call {
 	c := &call{inputs: "-"}
-	c.run = func(rnd *mon.Script) (o outcome) {
+	c.run = func(rnd io.Reader) (o outcome) {
 		m, err := sm9.GenerateEncryptMasterKey(rnd)
 		o.err = err
 		if m == nil {
@@ -300,7 +301,7 @@ func prepSM9Sign(x *env, r *mon.Rand, variant string) *call {
 
 func sm9SignCall(ks *sm9KeySet, msg []byte, variant string) *call {
 	c := &call{inputs: fmt.Sprintf("ks=%064x uid=%x hid=%d msg=%x", ks.ks, ks.signUID, ks.signHID, msg)}
-	c.run = func(rnd *mon.Script) (o outcome) {
+	c.run = func(rnd io.Reader) (o outcome) {
 		var h, S []byte
 		switch variant {
 		case "sm9.Sign->(h,S)":
@@ -327,7 +328,9 @@ func sm9SignCall(ks *sm9KeySet, msg []byte, variant string) *call {
 			o.out = sig
 			var perr error
 			if h, S, perr = parseSM9Sig(sig); perr != nil {
-				o.match = func(*big.Int) string { return "signature is not SEQUENCE{OCTET STRING h, BIT STRING S}: " + perr.Error() }
+				o.match = func(*big.Int) string {
+					return "signature is not SEQUENCE{OCTET STRING h, BIT STRING S}: " + perr.Error()
+				}
 				return
 			}
 		}
@@ -354,7 +357,7 @@ func prepSM9Wrap(x *env, r *mon.Rand, variant string) *call {
 
 func sm9WrapCall(ks *sm9KeySet, uid []byte, hid byte, klen int, variant string) *call {
 	c := &call{inputs: fmt.Sprintf("ke=%064x uid=%x hid=%d klen=%d", ks.ke, uid, hid, klen)}
-	c.run = func(rnd *mon.Script) (o outcome) {
+	c.run = func(rnd io.Reader) (o outcome) {
 		pub := ks.encM.PublicKey()
 		var key, cipher []byte
 		switch variant {
@@ -402,6 +405,12 @@ func sm9WrapCall(ks *sm9KeySet, uid []byte, hid byte, klen int, variant string) 
 			_, kk := ks.wrapKeyOf(q, uid, k, klen)
 			return allZero(kk)
 		}
+		o.full = func(k *big.Int) string {
+			if _, kk := ks.wrapKeyOf(q, uid, k, klen); !bytes.Equal(kk, key) {
+				return fmt.Sprintf("key %x is not KDF(C || g^k || uid, %d) = %x: the encapsulated key cannot be unwrapped", key, klen, kk)
+			}
+			return ""
+		}
 		return
 	}
 	return c
@@ -429,7 +438,7 @@ func prepSM9Encrypt(x *env, r *mon.Rand, variant string) *call {
 	hid := byte(r.Range(1, 255))
 	msg := r.Bytes([]int{1, 15, 16, 17, 40}[r.Intn(5)])
 	c := &call{inputs: fmt.Sprintf("ke=%064x uid=%x hid=%d msg=%x", ks.ke, uid, hid, msg)}
-	c.run = func(rnd *mon.Script) (o outcome) {
+	c.run = func(rnd io.Reader) (o outcome) {
 		opts, extra := sm9EncOpts(variant)
 		o.extra = extra
 		pub := ks.encM.PublicKey()
@@ -483,7 +492,7 @@ func prepSM9KxInit(x *env, r *mon.Rand, variant string) *call {
 	ks := x.sm9k[r.Intn(len(x.sm9k))]
 	klen := r.Range(1, 48)
 	c := &call{inputs: fmt.Sprintf("ke=%064x uidA=%x uidB=%x hid=%d klen=%d", ks.ke, ks.uidA, ks.uidB, ks.encHID, klen)}
-	c.run = func(rnd *mon.Script) (o outcome) {
+	c.run = func(rnd io.Reader) (o outcome) {
 		ke := ks.userA.NewKeyExchange(ks.uidA, ks.uidB, klen, true)
 		rA, err := ke.InitKeyExchange(rnd, ks.encHID)
 		o.err = err
@@ -511,7 +520,7 @@ func prepSM9KxRespond(x *env, r *mon.Rand, variant string) *call {
 	rAk := randScalar(r, sm9N)
 	sig := variant == "RespondKeyExchange(sig)"
 	c := &call{inputs: fmt.Sprintf("ke=%064x uidA=%x uidB=%x hid=%d klen=%d rA-scalar=%064x", ks.ke, ks.uidA, ks.uidB, ks.encHID, klen, rAk)}
-	c.run = func(rnd *mon.Script) (o outcome) {
+	c.run = func(rnd io.Reader) (o outcome) {
 		rA := g1Mul(userPubEnc(ks.ppubE, ks.uidB, ks.encHID), rAk).MarshalUncompressed()
 		ke := ks.userB.NewKeyExchange(ks.uidB, ks.uidA, klen, sig)
 		rB, sB, err := ke.RespondKeyExchange(rnd, ks.encHID, rA)
